@@ -127,7 +127,21 @@ func checkLen(m *dns.Msg, plain bool, emit bool, what string) {
 		st["model_len_msg"]++
 	}
 	if pr == "err:room" {
-		Viol("C08/pack-no-room/"+what, "Pack failed for lack of buffer space", map[string]string{"msg": text})
+		// the library reports some content errors (a character-string of more than 1025 text octets, an
+		// address of the wrong length) with the buffer/overflow error text: it is a failure for lack of
+		// room exactly when a larger buffer makes it go away
+		big := make([]byte, predicted+70000)
+		if Protect(func() string {
+			_, err := m.PackBuffer(big)
+			if err != nil {
+				return "err"
+			}
+			return "ok"
+		}) == "ok" {
+			Viol("C08/pack-no-room/"+what, "Pack failed for lack of buffer space (PackBuffer with a larger buffer succeeds)", map[string]string{"msg": text})
+		} else {
+			st["room_class_error_not_for_room"]++
+		}
 		return
 	}
 	if pr == "panic" {
@@ -151,7 +165,8 @@ func checkLen(m *dns.Msg, plain bool, emit bool, what string) {
 			off, err := dns.PackRR(rr, buf, 0, nil, false)
 			st["rr_checked"]++
 			if err != nil {
-				if strings.Contains(err.Error(), "buffer size too small") || strings.Contains(err.Error(), "overflow") {
+				if _, err2 := dns.PackRR(rr, make([]byte, dns.Len(rr)+70000), 0, nil, false); err2 == nil &&
+					(strings.Contains(err.Error(), "buffer size too small") || strings.Contains(err.Error(), "overflow")) {
 					t, _ := RRText(rr)
 					Viol("C08/packrr-no-room/"+dns.TypeToString[rr.Header().Rrtype], "PackRR has no room in Len(rr)+1 octets", map[string]string{"rr": t})
 				}
